@@ -164,6 +164,11 @@ func unspecifiedShape(roots []*nodeSpec, r *reqSpec) string {
 	}
 	t := locate(roots, r.spec)
 	if t == nil {
+		for _, s := range r.spec {
+			if !wellFormed(s) {
+				return "malformed-segment-and-unknown-resource" // 400 or 404? the text gives no order
+			}
+		}
 		return ""
 	}
 	_, hasQ := r.param("q")
